@@ -241,6 +241,8 @@ EventsOf(op) ==
     [] op = "EncDec"   -> {Ev(op, s, t, 0, w, 0, 0) : s \in Slots, t \in Slots, w \in {0, 1}}   \* w = 1: omit the mapping
     [] op = "DecodeNew" -> {Ev(op, s, t, 0, w, 0, 0) : s \in Slots, t \in Slots, w \in {0, 1}}
     [] op = "Proto"    -> {Ev(op, s, t, 0, 0, 0, 0) : s \in Slots, t \in Slots}
+    \* one buffer holding the encodings of s and of slot v, decoded into t in one call
+    [] op = "Concat"   -> {Ev(op, s, t, u, w, 0, 0) : s \in Slots, t \in Slots, u \in Slots, w \in {0, 1}}
     [] op = "Read"     -> {Ev(op, s, 0, 0, 0, 0, 0) : s \in Slots}
 
 Events == UNION {EventsOf(op) : op \in Ops}
@@ -252,6 +254,8 @@ Enabled(S, e) ==
   CASE e.op = "Merge"     -> e.s # e.t /\ S[e.s].variant = S[e.t].variant
     [] e.op = "Copy"      -> e.s # e.t
     [] e.op = "EncDec"    -> e.s # e.t /\ S[e.s].m = S[e.t].m /\ DecodableInto(S[e.t], S[e.s])
+    [] e.op = "Concat"    -> e.s # e.t /\ e.v # e.t /\ S[e.s].m = S[e.t].m /\ S[e.v].m = S[e.t].m
+                               /\ DecodableInto(S[e.t], S[e.s]) /\ DecodableInto(S[e.t], S[e.v])
     [] e.op = "DecodeNew" -> e.s # e.t /\ DecodableInto(InitSketches[e.t], S[e.s])
     [] e.op = "Proto"     -> e.s # e.t /\ InitSketches[e.t].variant = "plain"
     [] e.op = "Reweight"  -> e.num <= 0 \/ e.num = e.den \/ CanScale(S[e.s], e.num, e.den)
@@ -264,7 +268,7 @@ ErrorOf(S, e) ==
     [] e.op = "Reweight" -> IF e.num <= 0 THEN "Factor" ELSE ""
     [] OTHER -> ""
 
-Receiver(e) == IF e.op \in {"Merge", "Copy", "EncDec", "DecodeNew", "Proto"} THEN e.t ELSE e.s
+Receiver(e) == IF e.op \in {"Merge", "Copy", "EncDec", "DecodeNew", "Proto", "Concat"} THEN e.t ELSE e.s
 
 \* a sketch re-created in slot t by a decoder uses slot t's own store provider and variant
 Rebuilt(S, t, s, m) ==
@@ -279,6 +283,7 @@ ApplyEvent(S, e) ==
     [] e.op = "Clear"     -> [S EXCEPT ![e.s] = FreshSketch(S[e.s])]
     [] e.op = "Reweight"  -> IF e.num = e.den THEN S ELSE [S EXCEPT ![e.s] = ScaleSk(S[e.s], e.num, e.den)]
     [] e.op = "EncDec"    -> [S EXCEPT ![e.t] = ApplyAbsorb(S[e.t], S[e.s])]
+    [] e.op = "Concat"    -> [S EXCEPT ![e.t] = ApplyAbsorb(ApplyAbsorb(S[e.t], S[e.s]), S[e.v])]
     [] e.op = "DecodeNew" -> [S EXCEPT ![e.t] = Rebuilt(S, e.t, e.s, S[e.s].m)]
     [] e.op = "Proto"     -> [S EXCEPT ![e.t] = Rebuilt(S, e.t, e.s, S[e.s].m)]
     [] e.op = "Read"      -> S
